@@ -27,7 +27,9 @@ MANIFEST = {
             "and constructible has a parse tree with exactly its printed tokens which the visitor reads back to an object with the "
             "same meaning; escaped string constants read back to the same string.  Thirteen deviations of the tree as found are "
             "variant parameters (detected at run time) with refutation witnesses.  The model is tied to /repo on every run by a "
-            "correspondence run against the real ANTLR parser and visitor.",
+            "correspondence run against the real ANTLR parser and visitor, and by a source-text translator (tr_visitor: child "
+            "indices per visit method, instantiated classes, variant sites, __str__ templates, escape / quote_if_needed / "
+            "make_constant) whose facts Props/C10Src.v equates with the tables the model transcribes.",
     "design_ref": "DESIGN.md 6/C10, Appendix A.6",
     "note": "Trusted: Coq kernel + vm_compute, the hand-written model (compared with the implementation on every run, parse "
             "trees included), the ANTLR parser of stix2patterns (grammar unambiguity is not proved: Appendix A.6), the reading of "
